@@ -39,13 +39,14 @@ def observe(args):
 
     def record(rid, mode, run, spec_child, blind, withislands):
         rec = {"id": rid, "mode": mode, "kind": kind, "seed": seed, "err": "", "comps": [], "islrows": [], "oracle": [],
-               "blind": blind, "withislands": withislands, "rerun": [], "fresh": [], "saved": [],
+               "blind": blind, "withislands": withislands, "rerun": [], "fresh": [], "saved": [], "attr": [], "attr2": [],
                "hasfresh": False}
         try:
             sf, rows = run()
             comps = [s for s in rows if isinstance(s, ComponentSource)]
             isl = [s for s in rows if isinstance(s, IslandSource)]
             rec["comps"] = [FL.proj_row(s) for s in comps]
+            rec["attr"] = [synth.src_token(s) for s in sf.sources if isinstance(s, ComponentSource)]
             if blind:
                 rec["oracle"] = FL.oracle_islands(sf, kw)
                 omap = {o["num"]: o for o in rec["oracle"]}
@@ -69,6 +70,7 @@ def observe(args):
             # same process, fresh SourceFinder
             sf2, rows2 = run()
             rec["rerun"] = [synth.src_token(s) for s in rows2 if isinstance(s, ComponentSource)]
+            rec["attr2"] = [synth.src_token(s) for s in sf2.sources if isinstance(s, ComponentSource)]
             # fresh process
             if fresh:
                 ch = FL.child_tokens(spec_child)
@@ -128,7 +130,7 @@ def validate(ctx, recs, name):
     byid = {r["id"]: r for r in recs}
     slim = []
     for r in recs:
-        q = {k: r[k] for k in ("id", "err", "islrows", "oracle", "blind", "withislands", "rerun", "fresh", "saved")}
+        q = {k: r[k] for k in ("id", "err", "islrows", "oracle", "blind", "withislands", "rerun", "fresh", "saved", "attr", "attr2")}
         q["comps"] = [{k: c[k] for k in KEEP_ROW} for c in r["comps"]]
         if not r["comps"]:
             q["saved"] = []
@@ -154,7 +156,7 @@ def key_of(rec, fails):
 def selftest(ctx, good):
     import copy
     bads = []
-    b = copy.deepcopy(good); b["id"] = "st-dup"; b["comps"].append(dict(b["comps"][0], uuid="x")); b["rerun"].append(b["rerun"][0]); b["fresh"].append(b["fresh"][0]); b["saved"].append(b["saved"][0]); bads.append(b)
+    b = copy.deepcopy(good); b["id"] = "st-dup"; b["comps"].append(dict(b["comps"][0], uuid="x")); b["rerun"].append(b["rerun"][0]); b["attr"].append(b["attr"][0]); b["attr2"].append(b["attr2"][0]); b["fresh"].append(b["fresh"][0]); b["saved"].append(b["saved"][0]); bads.append(b)
     b = copy.deepcopy(good); b["id"] = "st-pa"; b["comps"][0]["pa_udeg"] = -90000000; bads.append(b)
     b = copy.deepcopy(good); b["id"] = "st-err"; b["comps"][0]["errk"][2] = 2; b["comps"][0]["fitok"] = True; bads.append(b)
     b = copy.deepcopy(good); b["id"] = "st-str"; b["comps"][0]["racs"] = 6000; bads.append(b)
